@@ -95,6 +95,7 @@ struct ConfigWorld : World {
 		bool partial[2] = {false, false};     // an assignment failed for lack of memory in this store: empty elements may be left of it (values are still exact)
 		{ Sut s; mpt_config_set(0, 0, 0, sep, 0); } // clear the process-wide configuration through its own API
 		config::root *priv; { Sut s; priv = new config::root; }
+		config_item *kept_item = 0;
 		// sub-tree views
 		metatype *vmt[2] = {0, 0}; config *vcfg[2] = {0, 0};
 		const PathV vprefix[2] = {PathV{"a"}, PathV{"a", "b"}};
@@ -172,7 +173,9 @@ struct ConfigWorld : World {
 				if (end) st.hit(pt.size() > ps.size() ? "probe:path_with_end_delimiter" : "probe:end_delimiter_not_in_path");
 				log.ev("ASSIGN holder %d '%s' := %zu bytes%s -> %d", holder, short_path(rel).c_str(), vl, fired ? " allocfail" : "", rc);
 				if (rc < 0) {
-					if (!fired) fail("refused-valid", "assignment of %zu bytes to '%s' through holder %d refused (%d) without allocation fault", vl, short_path(rel).c_str(), holder, rc);
+					// (while a copy of an item exists its sub-element buffer has two owners and cannot be copied: a change that would have to grow it is refused)
+					if (!fired && !(holder == 3 && kept_item)) fail("refused-valid", "assignment of %zu bytes to '%s' through holder %d refused (%d) without allocation fault", vl, short_path(rel).c_str(), holder, rc);
+					if (!fired) st.hit("probe:assignment_refused_beside_item_copy");
 					// a failed assignment may have created intermediate nodes without values; values must be untouched
 					partial[store] = true;
 					outcome = 0;
@@ -203,6 +206,12 @@ struct ConfigWorld : World {
 				break;
 			}
 			case OP_REMOVE: {
+				// (sometimes a plain copy of one of the private configuration's top-level items is taken first and kept for a while: it shares the
+				// item's sub-element buffer, as any copy of a config_item does; the configuration must go on as if it were not there)
+				if (holder == 3 && (op.c & 0x180) == 0x180) {
+					if (kept_item) { Sut s; delete kept_item; kept_item = 0; }
+					else { auto its = priv->items(); long n = (long) its.size(); if (n) { const config_item &src = its.begin()[(size_t) (op.c >> 9) % (size_t) n]; if (!src.unused()) { Sut s; kept_item = new config_item(src); st.hit("probe:config_item_copy_kept"); } } }
+				}
 				int end = 0; std::string pt = (conf && (op.c & 2)) ? ps : path_text(ps, op.c, end);
 				Block pb(pt.size() + 1, 0); memcpy(pb.p, pt.c_str(), pt.size() + 1);
 				int rc = 0; if (conf && (op.c & 2)) { Sut s; conf->del((const char *) pb.p, sep, (op.c & 4) ? (int) ps.size() : -1); st.hit("probe:cxx_config_del"); } else { Sut s; rc = mpt_config_set(conf, (const char *) pb.p, 0, sep, end); }
@@ -384,6 +393,7 @@ struct ConfigWorld : World {
 		verify_all("END", 0, 0);
 		// teardown
 		for (int v = 0; v < 2; ++v) { Sut s; vmt[v]->unref(); }
+		if (kept_item) { Sut s; delete kept_item; kept_item = 0; }
 		{ Sut s; delete priv; }
 		{ Sut s; mpt_config_set(0, 0, 0, sep, 0); }
 		if (ledger_live()) fail("leak", "%zu block(s) allocated after the configuration was cleared: %s", ledger_live(), ledger_describe().c_str());
